@@ -1,31 +1,35 @@
 #!/bin/sh
-# tools/seed.sh <seed-id e.g. C07-a> <agent worktree> <check ids...>
+# tools/seed.sh <seed-id e.g. C07-a> <agent worktree | -> <check ids...>
 # confirm a property-breaking change produced by a sub-agent in a FRESH scratch worktree of /repo HEAD,
 # store it under /verif/seeded/<id>/, and run the given checks against it.
+# With "-" as worktree the stored seeded/<id>/patch.diff and demo are re-confirmed and re-checked.
 ID=$1; SRC=$2; shift 2
 D=/verif/seeded/$ID; mkdir -p $D
-cp $SRC/_mutant/patch.diff $D/patch.diff
-for f in $SRC/_mutant/demo.py $SRC/_mutant/test_demo.py $SRC/_mutant/meta.json; do [ -f $f ] && cp $f $D/; done
+if [ "$SRC" != "-" ]; then
+  cp $SRC/_mutant/patch.diff $D/patch.diff
+  for f in $SRC/_mutant/demo.py $SRC/_mutant/test_demo.py $SRC/_mutant/meta.json; do [ -f $f ] && cp $f $D/; done
+fi
 DEMO=$(ls $D/demo.py $D/test_demo.py 2>/dev/null | head -1)
 WT=/tmp/seedwt-$ID
 git -C /repo worktree remove --force $WT 2>/dev/null
 git -C /repo worktree add --detach $WT HEAD -q || exit 2
-cp $WT/VERSION $WT/src/radical/pilot/VERSION
 mkdir -p $WT/_mutant && cp $DEMO $WT/_mutant/
-run_demo() { (cd $WT && PYTHONPATH=$WT/src timeout 300 /venv/bin/python $WT/_mutant/$(basename $DEMO) >$D/.demo.out 2>&1; echo $?); }
+run_demo() { (cd $WT && PATH=/venv/bin:$PATH PYTHONPATH=$WT/src timeout 300 /venv/bin/python $WT/_mutant/$(basename $DEMO) >$D/.demo.out 2>&1; echo $?); }
 R0=$(run_demo); L0=$(tail -1 $D/.demo.out)
-git -C $WT apply $D/patch.diff || { echo "patch does not apply"; exit 2; }
+git -C $WT apply $D/patch.diff || { echo "patch does not apply"; git -C /repo worktree remove --force $WT; exit 2; }
 R1=$(run_demo); L1=$(tail -1 $D/.demo.out)
 rm -f $WT/src/radical/pilot/VERSION
-BL=$(/tmp/mutkit/run_baseline.sh $WT | head -1)
-echo "demo without change: exit $R0 | $L0"
-echo "demo with change   : exit $R1 | $L1"
+BL=$(/verif/tools/mutkit/run_baseline.sh $WT | head -1)
+echo "demo without change: exit $R0 | $L0" | cut -c1-300
+echo "demo with change   : exit $R1 | $L1" | cut -c1-300
 echo "baseline with change: $BL"
-rm -rf $WT/src/radical/pilot/VERSION $D/.demo.out $WT/_mutant
+rm -rf $D/.demo.out $WT/_mutant
+CHK="{}"
 for C in "$@"; do
-  OUT=$(cd /verif && RPVERIF_REPO=$WT ./check $C 2>&1 | grep "mechanism=\|^OK\|^FAIL\|^INCONC" | head -4)
+  OUT=$(cd /verif && RPVERIF_REPO=$WT RPVERIF_NO_EVIDENCE=1 ./check $C 2>&1 | grep "mechanism=\|^OK\|^FAIL\|^INCONC" | head -5)
   echo "check $C: $OUT" | cut -c1-700
-  echo "$OUT" > $D/check_$C.txt
+  echo "$OUT" | cut -c1-600 > $D/check_$C.txt
 done
 echo "{\"demo_without_change_exit\": $R0, \"demo_with_change_exit\": $R1, \"baseline_with_change\": \"$BL\"}" > $D/confirmed.json
 git -C /repo worktree remove --force $WT
+/venv/bin/python /verif/tools/seedmeta.py $ID
